@@ -7,6 +7,22 @@ pid, tag = sys.argv[1], sys.argv[2]
 emph = sys.argv[3] if len(sys.argv) > 3 else 'r4'
 prop = [json.loads(l) for l in open('/verif/properties.jsonl') if json.loads(l)['id'] == pid][0]
 EMPH = {
+ 'r7': """Kinds of change I am most interested in this time (pick two DIFFERENT kinds, in two DIFFERENT functions, ideally in two different files):
+ * ARITHMETIC and UNITS inside an expression (no named constant changed, no check deleted): a rounding direction (/ vs div_ceil, floor vs ceil of msat -> sat),
+   `+ 1` / `- 1` dropped or added, `<` vs `<=` inside a computed bound that feeds a later comparison, saturating vs checked vs wrapping, a multiplication done
+   before instead of after a division, a weight / fee computed with the wrong one of two similar formulas, a value scaled twice or not at all;
+ * a change in a trait impl or conversion that callers rely on silently: `Default`, `From` / `TryFrom` / `Into`, `Ord` / `PartialOrd` / `PartialEq` / `Hash`, `Display` / `FromStr`
+   of an identifier, an iterator `size_hint`, a `Deref` target, a `Clone` that does not copy one field;
+ * TWO cooperating sites that each look fine alone: a producer and a consumer that now disagree (one changed, the other not) about an encoding, a unit, an index base,
+   the meaning of `None`, which side `local` refers to, or the order of a tuple;
+ * a feature-flag, channel-type or config dependent branch taken for the wrong variant (anchors vs zero-fee-commitments vs legacy, 0-conf, option_scid_alias, taproot, trampoline, dual-funding, async payments)
+   where the common variant still behaves correctly;
+ * a value captured or computed at the wrong TIME: before instead of after a state update, a stale copy used after the original was modified, a height / timestamp / feerate sampled once and reused;
+ * cleanup / pruning / eviction that removes slightly too much or too little (an off-by-one window, the wrong end of a queue, the current instead of the previous entry).
+Avoid deleting a check, deleting a removal, or adding an extra condition in front of an action (those were the themes of earlier rounds); avoid the best-known central guard of the best-known function.
+When you run a crate's whole lib suite use `timeout 1200 cargo test --offline -p <crate> --lib -- --test-threads 8`; one threaded test of the
+repository (chanmon_update_fail_tests::test_single_channel_multiple_mpp) occasionally dead-locks on a loaded machine whatever the patch - if a run
+hangs there, kill it and run it again rather than waiting.""",
  'r6': """Kinds of change I am most interested in this time (pick two DIFFERENT kinds, in two DIFFERENT functions, ideally in two different files):
  * an ADDED or NARROWED thing rather than a deleted one: an extra condition and-ed into an existing `if` (so that an action silently stops happening in
    one situation), an extra early `return` / `continue` for a case that looked redundant, an extra state write or an extra removal / event / message
